@@ -48,6 +48,13 @@ OPEN_TYPE_oer_get(const asn_codec_ctx_t *opt_codec_ctx,
         if(CHOICE_variant_set_presence(elm->type, *memb_ptr2, 0) != 0) {
             ASN__DECODE_FAILED;
         }
+    } else {
+        /* An OPTIONAL open type is held by pointer */
+        const asn_CHOICE_specifics_t *specs = elm->type->specifics;
+        *memb_ptr2 = CALLOC(1, specs->struct_size);
+        if(*memb_ptr2 == NULL) {
+            ASN__DECODE_FAILED;
+        }
     }
 
     variant = &elm->type->elements[selected.presence_index - 1];
@@ -87,15 +94,16 @@ OPEN_TYPE_oer_get(const asn_codec_ctx_t *opt_codec_ctx,
     if(*memb_ptr2) {
         const asn_CHOICE_specifics_t *specs =
             elm->type->specifics;
-        if(elm->flags & ATF_POINTER) {
-            ASN_STRUCT_FREE(*selected.type_descriptor, inner_value);
-            *memb_ptr2 = NULL;
-        } else if(variant->flags & ATF_POINTER) {
+        if(variant->flags & ATF_POINTER) {
             ASN_STRUCT_FREE(*selected.type_descriptor, *inner_value_p);
-            memset(*memb_ptr2, 0, specs->struct_size);
         } else {
             ASN_STRUCT_FREE_CONTENTS_ONLY(*selected.type_descriptor,
                                           inner_value);
+        }
+        if(elm->flags & ATF_POINTER) {
+            FREEMEM(*memb_ptr2);
+            *memb_ptr2 = NULL;
+        } else {
             memset(*memb_ptr2, 0, specs->struct_size);
         }
     }
